@@ -98,6 +98,19 @@ CHECKS = {
         technique='solver-enumerated bounded exploration (z3 DFS) with native execution of the real code',
         engine='E2',
     ),
+    'C20': dict(
+        category='translation_validation',
+        text=('Per helper, the normalised AST of AbstractExcelInPython.<helper> is compared with the same helper in the class text regenerated from '
+              'Context.build_class() together with the identity of the module-level bindings both use: identical => same behaviour for every '
+              'argument, with no bound. Helpers whose ASTs differ are decided by CrossHair/z3 differential conditions on symbolic arguments; a '
+              'stateful differential (set_arguments / exec_function_in histories) compares a generated class with a subclass of the base that '
+              'carries the same cell methods. The thorough tier runs every differential condition regardless of AST equality.'),
+        design_ref='DESIGN.md section 6 / C20',
+        note=('AST identity trusts CPython determinism; differential conditions are bounded (short lists/texts, small integer boxes); members without '
+              'a differential harness (_today, the exception class) are reported inconclusive if their ASTs ever differ.'),
+        technique='AST equivalence of the two runtime copies + symbolic differential execution (CrossHair/z3) where they differ',
+        engine='E1',
+    ),
 }
 
 NOT_YET = {}   # filled below for every property without a check
